@@ -137,7 +137,18 @@ def mk_not(t):
     return T("not", t)
 
 
+def _bool_const(t):
+    if isinstance(t, tuple) and t and t[0] == "const" and isinstance(t[1], tuple) and t[1][0] == "int" and len(t[1]) > 2 and t[1][2] == "bool":
+        return bool(t[1][1])
+    return None
+
+
 def mk_eq(a, b):
+    # b == true  is  b ;  b == false  is  !b
+    for x, y in ((a, b), (b, a)):
+        c = _bool_const(x)
+        if c is not None and _bool_const(y) is None:
+            return y if c else mk_not(y)
     if repr(a) > repr(b):
         a, b = b, a
     return T("eq", a, b)
@@ -1038,7 +1049,7 @@ _CLOSURE_BODIES = {}
 
 
 def _closure_body(facts, path):
-    key = (id(facts), path)
+    key = (id(facts), path, Walker.AUTO_INLINE)
     if key not in _CLOSURE_BODIES:
         _CLOSURE_BODIES[key] = Body(facts.bodies[path], facts)
     return _CLOSURE_BODIES[key]
@@ -1318,6 +1329,9 @@ class Walker:
                 if (name in self.inline or self._new_helper(name)) and self.depth < 3 and body.facts is not None and name in body.facts.bodies and "t" in t:
                     self._inline_call(n, t, name, args, ev, events, known, blocks)
                     return
+                if Walker.COMBINATORS_INLINE and self.depth < 3 and body.facts is not None and "t" in t and self._combinator(name, args) is not None:
+                    self._inline_combinator(n, t, name, args, ev, events, known, blocks)
+                    return
                 events.append(Ev("call", n, name, args, res, tuple(mut_roots), span=t["span"]["line"]))
                 for r in mut_roots:
                     self._invalidate(ev, known, r)
@@ -1393,7 +1407,7 @@ class Walker:
             self._finish(events, ("unknown-terminator", k), ev, blocks)
             return
 
-    def _inline_call(self, n, t, name, args, ev, events, known, blocks):
+    def _inline_call(self, n, t, name, args, ev, events, known, blocks, wrap=None):
         """splice every path of the crate-local callee into the caller's path (P2: inlined supergraph).
         Callee-local variables and call sites are re-tagged so that they cannot collide with the caller's."""
         body = self.body
@@ -1481,6 +1495,8 @@ class Walker:
                 self._finish(evs2, cp.outcome, e2, blocks)
                 continue
             res = retag_safe(cp.outcome[1]) if isinstance(cp.outcome[1], tuple) else cp.outcome[1]
+            if wrap is not None:
+                res = wrap(res)
             dest = t["dest"]
             if not dest["p"]:
                 e2.env[dest["l"]] = res
@@ -1489,6 +1505,95 @@ class Walker:
                 e2.mem = {}
                 pt = e2.place(dest)
                 e2.mem = saved
+                e2.mem[pt] = res
+            self._go(t["t"], e2, evs2, k2, blocks + [t["t"]])
+
+    # ---- Option / Result combinators with a crate-local closure: `o.and_then(f)` is `match o { Some(v) => f(v), None => None }`
+    COMBINATORS_INLINE = True
+    # (type, method) -> (hit variant, miss variant, what the hit arm yields, what the miss arm yields, index of the closure argument)
+    #   "f(v)"  the closure applied to the payload        "Some(f(v))" / "Ok(f(v))" / "Err(f(v))"  the same, wrapped
+    #   "v"     the payload                               "Ok(v)" / "Some(v)"    the payload, re-wrapped
+    #   "same"  the scrutinee itself                      "arg1"  the second argument
+    #   "f()"   the closure applied to nothing            "Err(f())"             the same, wrapped
+    #   "None" / "false"                                  a fresh constant
+    _COMBINATORS = {
+        ("Option", "and_then"):       ("Some", "None", "f(v)", "None", 1),
+        ("Option", "map_or"):         ("Some", "None", "f(v)", "arg1", 2),
+        ("Option", "is_some_and"):    ("Some", "None", "f(v)", "false", 1),
+        ("Option", "unwrap_or_else"): ("None", "Some", "f()", "v", 1),
+        ("Option", "ok_or_else"):     ("None", "Some", "Err(f())", "Ok(v)", 1),
+        ("Option", "or_else"):        ("None", "Some", "f()", "same", 1),
+        ("Result", "and_then"):       ("Ok", "Err", "f(v)", "same", 1),
+        ("Result", "unwrap_or_else"): ("Err", "Ok", "f(v)", "v", 1),
+        ("Result", "or_else"):        ("Err", "Ok", "f(v)", "same", 1),
+    }
+
+    def _combinator(self, name, args):
+        m = re.match(r"^std::(option::Option|result::Result)::<[^>]*>::(\w+)$", name)
+        if not m:
+            return None
+        spec = self._COMBINATORS.get((m.group(1).split("::")[1], m.group(2)))
+        if spec is None or len(args) <= spec[4]:
+            return None
+        f = args[spec[4]]
+        if not (isinstance(f, tuple) and f and f[0] == "closure" and f[1] in self.body.facts.bodies):
+            return None
+        return spec
+
+    def _inline_combinator(self, n, t, name, args, ev, events, known, blocks):
+        hit, miss, on_hit, on_miss, fi = self._combinator(name, args)
+        o = args[0]
+        f = args[fi]
+        atom = T("variantof", o)
+        fixed = o[2] if isinstance(o, tuple) and o and o[0] == "agg" and len(o) > 2 else None
+
+        def payload(variant):
+            return ev._field(T("variant", o, variant), "0", 0)
+
+        def fresh(vname, *ops):
+            return T("agg", "std::%s" % ("option::Option" if vname in ("Some", "None") else "result::Result"), vname, tuple(ops), ())
+        for variant, what in ((hit, on_hit), (miss, on_miss)):
+            if fixed is not None and fixed != variant:
+                continue
+            if atom in known and not self._compatible(known[atom], variant):
+                continue
+            e2 = self._fork(ev)
+            evs2 = list(events)
+            k2 = dict(known)
+            if fixed is None and atom not in k2:
+                evs2.append(Ev("guard", n, atom, variant))
+                k2[atom] = variant
+            elif fixed is None:
+                k2[atom] = variant
+            if "f(" in what:
+                wrap = None
+                if what.startswith(("Some(", "Ok(", "Err(")):
+                    vname = what.split("(")[0]
+                    wrap = (lambda r, vname=vname: fresh(vname, r))
+                cargs = (f, T("tuple", ((payload(variant),) if "f(v)" in what else ())))
+                saved = self.results
+                self._inline_call(n, t, f[1], cargs, e2, evs2, k2, blocks, wrap=wrap)
+                continue
+            if what == "v":
+                res = payload(variant)
+            elif what in ("Ok(v)", "Some(v)"):
+                res = fresh(what.split("(")[0], payload(variant))
+            elif what == "same":
+                res = o
+            elif what == "arg1":
+                res = args[1]
+            elif what == "None":
+                res = fresh("None")
+            else:
+                res = T("const", T("int", 0, "bool"))
+            dest = t["dest"]
+            if not dest["p"]:
+                e2.env[dest["l"]] = res
+            else:
+                savedm = e2.mem
+                e2.mem = {}
+                pt = e2.place(dest)
+                e2.mem = savedm
                 e2.mem[pt] = res
             self._go(t["t"], e2, evs2, k2, blocks + [t["t"]])
 
